@@ -806,12 +806,19 @@ theorem c01_run_stop (st : Gotree.Newick.PState) (inp : List Char) (o : Gotree.N
   · rename_i s2 r2 ho
     rw [h] at ho; cases ho
 
+/-- `Parse` consumes the `;`: the delivered value remembers where the parser stands -/
+def withRest (x : Res Newick.Parsed) (r : List Char) : Res Newick.Parsed :=
+  match x with
+  | .ok p => .ok { p with rest := r }
+  | .err m => .err m
+  | .panic m => .panic m
+
 /-- how C02's `run` goes on after a step of `parseIter` -/
 def stepOut (x : Newick.Step) (r : List Char) : Res Newick.Parsed :=
   match x with
   | .cont s' => Newick.run s' r
   | .fail m => .err m
-  | .finished s' => Newick.finish s'
+  | .finished s' => withRest (Newick.finish s') r
 
 theorem run_iter (s : Newick.PSt) (hm : s.mode = .iter) (cs : List Char) :
     Newick.run s cs =
@@ -822,7 +829,10 @@ theorem run_iter (s : Newick.PSt) (hm : s.mode = .iter) (cs : List Char) :
   by_cases h : (Newick.scanIW cs).tok = .eof
   · simp [h]
   · simp only [h, dite_false, if_false]
-    cases Newick.stepIter s (Newick.scanIW cs).tok (Newick.scanIW cs).lit <;> rfl
+    cases Newick.stepIter s (Newick.scanIW cs).tok (Newick.scanIW cs).lit with
+    | cont s' => rfl
+    | fail m => rfl
+    | finished s' => simp only [stepOut, withRest]; cases Newick.finish s' <;> rfl
 
 theorem run_afterColon (s : Newick.PSt) (hm : s.mode = .afterColon) (cs : List Char) :
     Newick.run s cs =
@@ -833,12 +843,15 @@ theorem run_afterColon (s : Newick.PSt) (hm : s.mode = .afterColon) (cs : List C
   by_cases h : (Newick.scanIW cs).tok = .eof
   · simp [h, Newick.atEOF, hm]
   · simp only [h, dite_false, if_false]
-    cases Newick.stepAfterColon s (Newick.scanIW cs).tok (Newick.scanIW cs).lit <;> rfl
+    cases Newick.stepAfterColon s (Newick.scanIW cs).tok (Newick.scanIW cs).lit with
+    | cont s' => rfl
+    | fail m => rfl
+    | finished s' => simp only [stepOut, withRest]; cases Newick.finish s' <;> rfl
 
 /- ## the end of `Parse` -/
 
 /-- what C01's `parse` does with the result of `run` -/
-def post (o : Gotree.Newick.Outcome (Gotree.Newick.PState × List Char)) : Gotree.Newick.Outcome T :=
+def post (o : Gotree.Newick.Outcome (Gotree.Newick.PState × List Char)) : Gotree.Newick.Outcome (T × List Char) :=
   match o with
   | .err m => .err m
   | .panic m => .panic m
@@ -848,30 +861,30 @@ def post (o : Gotree.Newick.Outcome (Gotree.Newick.PState × List Char)) : Gotre
     else if (Gotree.Newick.scanIW myCodec rest).1 ≠ .eot then .err "found …, expected ;"
     else match st.result with
       | none => .panic "nil root in Tips()"
-      | some t => .ok (Gotree.Newick.trimTips t)
+      | some t => .ok (Gotree.Newick.trimTips t, (Gotree.Newick.scanIW myCodec rest).2.2)
 
 /-- agreement of the two outcomes (`unrep`: C01's model gives up on a non-finite number) -/
-def RelOut (theirs : Gotree.Newick.Outcome T) (mine : Res Newick.Parsed) : Prop :=
+def RelOut (theirs : Gotree.Newick.Outcome (T × List Char)) (mine : Res Newick.Parsed) : Prop :=
   match theirs with
-  | .ok t => mine = .ok ⟨t, false⟩
+  | .ok (t, r) => mine = .ok ⟨t, false, r⟩
   | .err _ => ∃ m, mine = .err m
   | .panic _ => ∃ m, mine = .panic m
   | .unrep _ => True
 
 theorem finish_rel (s : Newick.PSt) (pos : List Char) (hs : s.stale = false) (hn : s.nonfinite = false) (hl : s.level = 0)
-    (hp : (Gotree.Newick.scanIW myCodec pos).1 = .eot) :
-    RelOut (post (.ok (conv s, pos))) (Newick.finish s) := by
-  unfold post Newick.finish
+    (hp : (Gotree.Newick.scanIW myCodec pos).1 = .eot) (rest : List Char) (hr : (Gotree.Newick.scanIW myCodec pos).2.2 = rest) :
+    RelOut (post (.ok (conv s, pos))) (withRest (Newick.finish s) rest) := by
+  unfold post Newick.finish withRest
   have l0 : ((conv s).level != 0) = false := by simp [conv, hl]
   simp only [l0, Bool.false_eq_true, if_false, hp, ne_eq, not_true_eq_false, hs, result_eq]
   cases hstk : s.stk with
   | some p =>
     obtain ⟨r, inner⟩ := p
-    simp [RelOut, trimTips_eq, hn]
+    simp [RelOut, trimTips_eq, hn, hr]
   | none =>
     cases hl : s.lastRoot with
     | none => simp [RelOut]
-    | some t => simp [RelOut, trimTips_eq, hn]
+    | some t => simp [RelOut, trimTips_eq, hn, hr]
 
 /-- what C01's `run` does after `iter` -/
 def theirsNext (it : Gotree.Newick.Iter) : Gotree.Newick.Outcome (Gotree.Newick.PState × List Char) :=
@@ -905,7 +918,7 @@ theorem finish_stale (s : Newick.PSt) (h : s.stale = true) : ∃ m, Newick.finis
 /-- from the agreement of one step to the agreement of the outcomes, given the agreement on what follows -/
 theorem sim_of_rel (x : Newick.Step) (it : Gotree.Newick.Iter) (pos rest : List Char)
     (hrel : StepRel x it pos rest)
-    (hok : ∀ ps p, it = .stop (.ok (ps, p)) → (Gotree.Newick.scanIW myCodec p).1 = .eot)
+    (hok : ∀ ps p, it = .stop (.ok (ps, p)) → (Gotree.Newick.scanIW myCodec p).1 = .eot ∧ (Gotree.Newick.scanIW myCodec p).2.2 = rest)
     (ih : ∀ s' : Newick.PSt, s'.mode = .iter → s'.nonfinite = false →
             RelOut (post (Gotree.Newick.run myCodec (conv s') rest)) (Newick.run s' rest)) :
     RelOut (post (theirsNext it)) (stepOut x rest) := by
@@ -920,11 +933,13 @@ theorem sim_of_rel (x : Newick.Step) (it : Gotree.Newick.Iter) (pos rest : List 
       obtain ⟨ps, p⟩ := a
       obtain ⟨s', hx, hs, hn, hl, hps, hp⟩ := hrel
       subst hx hps
-      exact finish_rel s' p hs hn hl (hok _ _ rfl)
+      exact finish_rel s' p hs hn hl (hok _ _ rfl).1 rest (hok _ _ rfl).2
     | err m =>
       rcases hrel with ⟨m', hx⟩ | ⟨s', hx, hs⟩
       · subst hx; exact ⟨m', rfl⟩
-      · subst hx; exact finish_stale s' hs
+      · subst hx
+        obtain ⟨m', hm'⟩ := finish_stale s' hs
+        exact ⟨m', by simp [stepOut, withRest, hm']⟩
     | panic m => exact absurd hrel id
     | unrep m => trivial
 
@@ -1075,7 +1090,7 @@ theorem sim_step (cs : List Char) (s : Newick.PSt) (hm : s.mode = .iter) (hn : s
             -- the `;` is still the next token at `pos`
             have hs : (Gotree.Newick.scanIW myCodec cs).1 = .eot := by rw [scanIW_eq]; exact h1
             rw [OnC01.scanIW_skipWs myCodec cs (by rw [hs]; decide)]
-            exact hs
+            exact ⟨hs, by rw [scanIW_eq]⟩
           · exact absurd (ct_inj (h1.trans rfl : ct (Newick.scanIW cs).tok = ct .eof)) he
         · intro s' hm' hn'
           exact ih _ hlt s' hm' hn'
@@ -1110,13 +1125,16 @@ theorem run_noncomment (s : Newick.PSt) (hm : Newick.inComment s.mode = false) (
   by_cases h : (Newick.scanIW cs).tok = .eof
   · simp [h]
   · simp only [h, dite_false, if_false]
-    cases Newick.stepTok s (Newick.scanIW cs).tok (Newick.scanIW cs).lit <;> rfl
+    cases Newick.stepTok s (Newick.scanIW cs).tok (Newick.scanIW cs).lit with
+    | cont s' => rfl
+    | fail m => rfl
+    | finished s' => simp only [stepOut, withRest]; cases Newick.finish s' <;> rfl
 
 /-- the state in which `parseIter` starts -/
 def sIter : Newick.PSt := { mode := .iter }
 
 /-- what C01's `parse` does once the place `inp1` of the first `(` is known -/
-def tailC01 (inp1 : List Char) : Gotree.Newick.Outcome T :=
+def tailC01 (inp1 : List Char) : Gotree.Newick.Outcome (T × List Char) :=
   if (Gotree.Newick.scanIW myCodec inp1).1 ≠ .openpar then .err "found …, expected ("
   else post (Gotree.Newick.run myCodec {} (Gotree.Newick.skipWs myCodec inp1))
 
@@ -1161,7 +1179,7 @@ theorem sim_from_open (cs : List Char) (s0 : Newick.PSt) (h0 : s0 = {} ∨ s0 = 
       exact ⟨m, rfl⟩
 
 theorem tail_eq (inp1 : List Char) :
-    (if (Gotree.Newick.scanIW myCodec inp1).1 ≠ .openpar then (Gotree.Newick.Outcome.err "found …, expected (" : Gotree.Newick.Outcome T)
+    (if (Gotree.Newick.scanIW myCodec inp1).1 ≠ .openpar then (Gotree.Newick.Outcome.err "found …, expected (" : Gotree.Newick.Outcome (T × List Char))
      else
       match Gotree.Newick.run myCodec {} (Gotree.Newick.skipWs myCodec inp1) with
       | .err m => .err m
@@ -1172,7 +1190,7 @@ theorem tail_eq (inp1 : List Char) :
         else if (Gotree.Newick.scanIW myCodec rest).1 ≠ .eot then .err "found …, expected ;"
         else match st.result with
           | none => .panic "nil root in Tips()"
-          | some t => .ok (Gotree.Newick.trimTips t)) = tailC01 inp1 := by
+          | some t => .ok (Gotree.Newick.trimTips t, (Gotree.Newick.scanIW myCodec rest).2.2)) = tailC01 inp1 := by
   unfold tailC01 post
   split
   · rfl
@@ -1183,13 +1201,13 @@ theorem tail_eq (inp1 : List Char) :
     | unrep m => rfl
 
 theorem c01_parse_eq (inp : List Char) :
-    Gotree.Newick.parse myCodec inp =
+    Gotree.Newick.parseR myCodec inp =
       if (Gotree.Newick.scanIW myCodec inp).1 = .openbrack then
         match Gotree.Newick.consumeComment myCodec (Gotree.Newick.scanIW myCodec inp).2.2 [] with
         | none => .err "unmatched bracket"
         | some (_, r) => tailC01 r
       else tailC01 inp := by
-  unfold Gotree.Newick.parse
+  unfold Gotree.Newick.parseR
   simp only
   by_cases hb : (Gotree.Newick.scanIW myCodec inp).1 = .openbrack
   · simp only [hb, if_true]
@@ -1203,7 +1221,7 @@ theorem c01_parse_eq (inp : List Char) :
 
 /-- ★ the two Newick models agree on every input: same outcome class and same delivered tree, wherever
     C01's model does not give up on a non-finite number -/
-theorem parse_agree (cs : List Char) : RelOut (Gotree.Newick.parse myCodec cs) (Newick.parseChars cs) := by
+theorem parseR_agree (cs : List Char) : RelOut (Gotree.Newick.parseR myCodec cs) (Newick.parseChars cs) := by
   rw [c01_parse_eq]
   unfold Newick.parseChars
   rw [scanIW_eq]
@@ -1227,5 +1245,46 @@ theorem parse_agree (cs : List Char) : RelOut (Gotree.Newick.parse myCodec cs) (
   · have : ct (Newick.scanIW cs).tok ≠ Gotree.Newick.Tok.openbrack := fun h => hb (ct_inj (h.trans rfl))
     simp only [this, if_false]
     exact sim_from_open cs {} (Or.inl rfl) (fun _ => hb)
+
+/-- `parse` is `parseR` without the rest -/
+theorem c01_parse_of_parseR (C : Gotree.Newick.Codec) (inp : List Char) :
+    Gotree.Newick.parse C inp =
+      match Gotree.Newick.parseR C inp with
+      | .ok (t, _) => .ok t
+      | .err m => .err m
+      | .panic m => .panic m
+      | .unrep m => .unrep m := by
+  unfold Gotree.Newick.parse Gotree.Newick.parseR
+  simp only
+  split
+  · rfl
+  · split
+    · rfl
+    · split
+      · rfl
+      · rfl
+      · rfl
+      · split
+        · rfl
+        · split
+          · rfl
+          · split <;> rfl
+
+/-- agreement of `parse` (no rest) with C02's model -/
+def RelOutT (theirs : Gotree.Newick.Outcome T) (mine : Res Newick.Parsed) : Prop :=
+  match theirs with
+  | .ok t => ∃ r, mine = .ok ⟨t, false, r⟩
+  | .err _ => ∃ m, mine = .err m
+  | .panic _ => ∃ m, mine = .panic m
+  | .unrep _ => True
+
+theorem parse_agree (cs : List Char) : RelOutT (Gotree.Newick.parse myCodec cs) (Newick.parseChars cs) := by
+  rw [c01_parse_of_parseR]
+  have h := parseR_agree cs
+  cases hp : Gotree.Newick.parseR myCodec cs with
+  | ok a => obtain ⟨t, r⟩ := a; rw [hp] at h; exact ⟨r, h⟩
+  | err m => rw [hp] at h; exact h
+  | panic m => rw [hp] at h; exact h
+  | unrep m => trivial
 
 end Gotree.C02.NewickEq
